@@ -142,6 +142,53 @@ def misuse_battery(seed):
     return None
 
 
+def misuse_battery_sizes(seed, sizes):
+    """term counts far above the symbolic bound: an uninitialized Point at the first / a middle / a late / the last index,
+    next to a distinct valid receiver, an uninitialized distinct receiver, or being the receiver itself"""
+    import random
+    from sym import native, ptreplay, ref
+    rng = random.Random(seed)
+    pts = ptreplay.bank(rng, 6)
+    ops, meta = [], []
+    for op in ("P.MultiScalarMult", "P.VarTimeMultiScalarMult"):
+        for n in sizes:
+            if n < 1:
+                continue
+            for bad in sorted({0, n // 2, (n * 7) // 8, n - 1}):
+                for recv in ("valid", "zero", "alias"):
+                    init = {}
+                    for j in range(n):
+                        init["k%d" % j] = ptreplay.scalar_words(rng.choice([0, 1, rng.randrange(ref.L)]))
+                        init["q%d" % j] = "pt:zero" if j == bad else ptreplay.mk_point(pts[rng.randrange(len(pts))], rng)
+                    v = "q%d" % bad if recv == "alias" else "v"
+                    if v == "v":
+                        init["v"] = "pt:zero" if recv == "zero" else ptreplay.mk_point(pts[0], rng)
+                    ops.append({"op": op, "args": [v, "|".join("k%d" % j for j in range(n)), "|".join("q%d" % j for j in range(n))], "init": init})
+                    meta.append((op, n, bad, recv))
+    res = native.run_ops("", ops)
+    for (op, n, bad, recv), o, r in zip(meta, ops, res):
+        if "panic" not in r:
+            return dict(what="%s with %d terms, points[%d] uninitialized (receiver: %s) does not panic" % (op, n, bad, {"valid": "a distinct valid point", "zero": "a distinct zero value", "alias": "that same uninitialized point"}[recv]),
+                        op=op, args=o["args"], init=o["init"])
+    return None
+
+
+def coverage_run(base, chk, routine, n):
+    """explore the routine on valid inputs only to record which basic blocks the bound n reaches (results are C01's business)"""
+    h = L2m.L2(base, chk)
+    path = h.path()
+    fname = base.prog.find("Point)." + routine)
+    sc = [h.scalar(path, "k%d" % i)[0] for i in range(n)]
+    pts = [h.point(path, "Q%d" % i) for i in range(n)]
+    ss, _ = h.ptr_slice(path, sc, "Scalar")
+    ps, _ = h.ptr_slice(path, pts, "Point")
+    t0 = time.time()
+    paths = h.ex.call(fname, [h.point(path, "R"), ss, ps], path)
+    chk.used(base.prog, fname, "group mode")
+    chk.add(Ob("%s[n=%d, valid inputs]: explored for block coverage (%d paths, %d return)" % (routine, n, len(paths), sum(1 for p in paths if p.outcome[0] == "ret")),
+               "unsat" if paths and all(p.outcome[0] == "ret" for p in paths) else "error:non-returning path %s" % ([p.outcome for p in paths if p.outcome[0] != "ret"][:1],), time.time() - t0, [fname], "group mode"))
+
+
 def run(chk):
     prog, base = setup(chk)
     maxn = 3
@@ -224,8 +271,24 @@ def run(chk):
                     return args
                 tag = "inputs %s are one uninitialized Point%s" % (list(S), " that is also the receiver" if with_recv else "") if (len(S) > 1 or with_recv) else "input #%d uninitialized" % S[0]
                 items.append(("%s %s" % (meth, tag), lambda meth=meth, fname=fname, build=build, tag=tag: expect_panic(base, chk, "%s[%s]" % (meth, tag), fname, build)))
+    # the slice positions are explored for n <= maxn only: the valid-input runs below record which blocks that bound reaches
+    items.insert(0, ("coverage VarTimeMultiScalarMult", lambda: coverage_run(base, chk, "VarTimeMultiScalarMult", 1)))
+    items.insert(1, ("coverage MultiScalarMult", lambda: coverage_run(base, chk, "MultiScalarMult", 2)))
     run_kernels(chk, items)
     L1m.settle(chk, [o for o in chk.obs if "panic" in o.name and not o.ok()], lambda: misuse_battery(chk.seed), "misuse panics")
+    # "the bounds cover the code": code of the multi-scalar routines that only larger term counts reach leaves the
+    # slice-position claim undecided; the misuse battery is then run with term counts around the constants of that code
+    from .common import bounds_cover_code
+    roots = [prog.find(PTN + r) for r in ("MultiScalarMult", "VarTimeMultiScalarMult")]
+    consts = bounds_cover_code(chk, prog, roots, exempt=("filippo.io/edwards25519.checkInitialized", "(*filippo.io/edwards25519.Scalar).nonAdjacentForm"))
+    ob = chk.obs[-1]
+    if not ob.ok():
+        sizes = sorted({n for c in (consts or [8, 16, 32, 64]) for n in (c - 1, c, c + 1, c + 3, 2 * c + 1) if 1 <= n <= 600})[:10]
+        chk.extra["large_term_counts_replayed"] = sizes
+        hit = misuse_battery_sizes(chk.seed, sizes)
+        if hit:
+            ob.verdict = "violated"
+            chk.violation("multi-scalar routines above the symbolic bound", hit["what"], hit)
     chk.samples = [o.j() for o in chk.obs if "every feasible path panics" in o.name][:6]
 
 
